@@ -11,6 +11,7 @@ import XL.Model.Circ
 import XL.Model.Look
 import XL.Model.Fn
 import XL.Model.Blanks
+import XL.Model.CText
 /-!
 # Request dispatcher of the executable model
 -/
@@ -185,6 +186,7 @@ def answerParse (cmd : String) (args : List String) : Option String :=
   | "book", _ => BookProto.answerBook args
   | "cbook", _ => CircProto.answerCBook args
   | "cycles", _ => CircProto.answerCycles args
+  | "ctext", _ => CTextProto.answerCText args
   | "blanks", c :: nl :: rest => do
       -- `blanks compact nL L… (len cell…)*` : the listed cells after range assembly, in listing order
       let c' ← c.toNat?; let n ← nl.toNat?
